@@ -750,16 +750,26 @@ func assign(n *node) {
 	}
 
 	if n.kind == defineStmt {
-		// Handle a multiple var declararation / assign. It cannot be a swap.
+		// Handle a multiple var declararation / assign. As some of the variables may
+		// be redeclared, it can be a swap: evaluate and copy all values in right hand
+		// side into temporary before setting the variables.
 		n.exec = func(f *frame) bltn {
+			t := make([]reflect.Value, len(svalue))
 			for i, s := range svalue {
+				if n.child[i].ident == "_" {
+					continue
+				}
+				t[i] = reflect.New(types[i]).Elem()
+				t[i].Set(s(f))
+			}
+			for i := range svalue {
 				if n.child[i].ident == "_" {
 					continue
 				}
 				data := getFrame(f, level[i]).data
 				j := index[i]
 				data[j] = reflect.New(data[j].Type()).Elem()
-				data[j].Set(s(f))
+				data[j].Set(t[i])
 			}
 			return next
 		}
